@@ -70,7 +70,10 @@ EpisodeDone ==
 (* ---------------- start an API call ---------------- *)
 StartCall ==
     /\ phase = "idle" /\ calls # <<>> /\ cur = NoCall
-    /\ LET c == Head(calls) IN
+    /\ LET c0 == Head(calls)
+           (* "ssolve" / "sall": the application calls stop_query() (public API) and then solve() / solve_all(); the  *)
+           (* call clears the flag before it searches, so the search goes on exactly as after a plain call            *)
+           c == [c0 EXCEPT !.mode = IF c0.mode = "ssolve" THEN "solve" ELSE IF c0.mode = "sall" THEN "all" ELSE c0.mode] IN
        /\ cur' = [mode |-> c.mode, got |-> <<>>, fired |-> (c.mode # "next" /\ c.fire > 0)]
        /\ stop' = IF c.mode = "next" THEN stop ELSE FALSE          \* start_query_timer() clears the flag
        /\ fireAt' = IF c.mode = "next" THEN 0 ELSE c.fire
